@@ -435,3 +435,17 @@ Theorem C04_cache_eviction : forall valid h e g p,
   ~ In p (gh_list gh') -> dget p (pmap (fst (fst r))) = None.
 Proof. exact cache_eviction. Qed.
 Print Assumptions C04_cache_eviction.
+
+(* ---- modelled granularity of the commit ---- *)
+
+(* 'finally: _pmap = pmap' is one atomic step of the machine: the committed cache changes only by
+   cache_clear() or in the very step in which a generator finishes (and then it is that generator's
+   private copy, C04_cache_after_finish); no state with a half-replaced cache exists.  Two threads are
+   therefore proved at the granularity "yield points and whole commits"; the line-level windows inside
+   the prologue and the epilogue are enumerated on the implementation by the scheduler cases. *)
+Theorem C04_cache_change_is_commit : forall valid s e,
+  pmap (fst (step valid s e)) <> pmap s ->
+  e = CacheClear \/
+  exists g, (e = IterNext g \/ e = IterClose g) /\ gens (fst (step valid s e)) g = GDone /\ gens s g <> GDone.
+Proof. exact cache_change_is_commit. Qed.
+Print Assumptions C04_cache_change_is_commit.
